@@ -524,7 +524,16 @@ fn print_xml(
 		(Item { at }, _) => print_item(at),
 		(ListItem { next }, _) =>
 		{
-			Box::new(print_prev(i - 1).chain(print_item(next)))
+			// Walk the list iteratively: recursing once per element
+			// overflows the stack on lists of a few thousand elements.
+			let mut items = vec![print_prev(i - 1)];
+			let mut next = usize::from(next.0);
+			while let ListItem { next: after } = nodes[next]
+			{
+				items.push(print_prev(next - 1));
+				next = usize::from(after.0);
+			}
+			Box::new(items.into_iter().flatten())
 		}
 		(NoMoreItems, _) => Box::new(std::iter::empty()),
 
